@@ -459,8 +459,9 @@ def specMatch (p : Pat) (t : Tree) : Option Env :=
 
 doc.go: "It is an error to provide a non-nil node to a binding that has already been bound."
 `wf ctx p`: no creating binding `x@(…)` can be reached while `x` may already be bound, where
-`ctx` lists the names that may be bound on entry; and a creating binding does not mention its
-own name in its operand. -/
+`ctx` lists the names that may be bound on entry.  `selfFree p`: a creating binding does not
+mention its own name in its operand (`x@(Ident x)` would first bind `x` to the string and then
+overwrite it). -/
 
 mutual
 /-- names that may be visible after matching `p` (bindings made under `Not` never are) -/
@@ -494,7 +495,7 @@ mutual
 def wf (ctx : List String) : Pat → Bool
   | .binding n _ sub =>
     if sub.isNilPat then true
-    else !ctx.contains n && !(allNames sub).contains n && wf ctx sub
+    else !ctx.contains n && wf ctx sub
   | .or alts => wfAlts ctx alts
   | .not sub => wf ctx sub
   | .list h t => wf ctx h && wf (ctx ++ names h) t
@@ -508,6 +509,19 @@ def wfAlts (ctx : List String) : List Pat → Bool
 def wfSeq (ctx : List String) : List Pat → Bool
   | [] => true
   | p :: ps => wf ctx p && wfSeq (ctx ++ names p) ps
+end
+
+mutual
+def selfFree : Pat → Bool
+  | .binding n _ sub => !(allNames sub).contains n && selfFree sub
+  | .or alts => selfFreeL alts
+  | .not sub => selfFree sub
+  | .list h t => selfFree h && selfFree t
+  | .node _ _ fs => selfFreeL fs
+  | _ => true
+def selfFreeL : List Pat → Bool
+  | [] => true
+  | p :: ps => selfFree p && selfFreeL ps
 end
 
 mutual
@@ -568,22 +582,39 @@ def nodeFields : List (String × List String) := [
 def requiresTypeInfo : List String :=
   ["Symbol", "Builtin", "Object", "IntegerLiteral", "TrulyConstantExpression"]
 
+inductive NodeClass where
+  | tyinfo | unsupported | orC | anyC | notC | listC | bindingC | unknown
+  | struct (fs : List String)
+
+/-- `structNodes[typ]` of parser.go, by the shape populateNode distinguishes -/
+def classify (typ : String) : NodeClass :=
+  if requiresTypeInfo.contains typ then .tyinfo
+  else if typ = "Ellipsis" then .unsupported   -- the real parser panics in collectEntryNodes
+  else if typ = "Or" then .orC
+  else if typ = "Any" then .anyC
+  else if typ = "Not" then .notC
+  else if typ = "List" then .listC
+  else if typ = "Binding" then .bindingC
+  else match nodeFields.lookup typ with
+    | none => .unknown
+    | some fs => .struct fs
+
 /-- populateNode (allowTypeInfo = false). A `Binding` gets index 0 here; Parser.node assigns it. -/
 def populate (typ : String) (objs : List Pat) : Except PErr Pat :=
-  if requiresTypeInfo.contains typ then .error .typeInfo
-  else if typ = "Ellipsis" then .error .unsupported   -- the real parser panics in collectEntryNodes
-  else if typ = "Or" then .ok (.or objs)
-  else if typ = "Any" then (match objs with | [] => .ok .any | _ => .error .arity)
-  else if typ = "Not" then (match objs with | [x] => .ok (.not x) | _ => .error .arity)
-  else if typ = "List" then (match objs with | [h, t] => .ok (.list h t) | _ => .error .arity)
-  else if typ = "Binding" then
+  match classify typ with
+  | .tyinfo => .error .typeInfo
+  | .unsupported => .error .unsupported
+  | .unknown => .error .unknownNode
+  | .orC => .ok (.or objs)
+  | .anyC => (match objs with | [] => .ok .any | _ => .error .arity)
+  | .notC => (match objs with | [x] => .ok (.not x) | _ => .error .arity)
+  | .listC => (match objs with | [h, t] => .ok (.list h t) | _ => .error .arity)
+  | .bindingC =>
     (match objs with
      | [.str name, sub] => .ok (.binding name 0 sub)
      | [_, _] => .error .bindingName
      | _ => .error .arity)
-  else match nodeFields.lookup typ with
-    | none => .error .unknownNode
-    | some fs => if objs.length = fs.length then .ok (.node typ fs objs) else .error .arity
+  | .struct fs => if objs.length = fs.length then .ok (.node typ fs objs) else .error .arity
 
 def mkList : List Pat → Pat
   | [] => .list .gonil .gonil
